@@ -98,21 +98,15 @@ End Honest.
 
 (* ---------- the environment ---------- *)
 (* a chain event: rollback target not below genesis, the resulting chain has
-   distinct blocks (a hash names one block) and fewer than 1,000,000 of them *)
+   distinct blocks and fewer than 1,000,000 of them, and every block names
+   its predecessor ([parent]: PrevBlock of a header; a hash names one block
+   and therefore one chain down to genesis) *)
 Definition wf_chain (bl : list Z) : Prop := NoDup bl /\ 0 < zlen bl < 1000000.
 
-Definition wf_ev (s : lstate) (e : lev) : Prop :=
+Definition wf_ev (parent : Z -> Z) (s : lstate) (e : lev) : Prop :=
   match e with
-  | EChain h xs _ => 0 <= h /\ wf_chain (abl (chain_event (l_a s) h xs))
-  | _ => True
-  end.
-
-(* every chain event raises the height of the tip (or changes nothing): the
-   case when all blocks carry the same work *)
-Definition raises (s : lstate) (e : lev) : Prop :=
-  match e with
-  | EChain h xs _ => chain_event (l_a s) h xs = l_a s \/
-                     zlen (abl (l_a s)) < zlen (abl (chain_event (l_a s) h xs))
+  | EChain h xs _ => 0 <= h /\ wf_chain (abl (chain_event (l_a s) h xs)) /\
+                     parent_ok parent (abl (chain_event (l_a s) h xs))
   | _ => True
   end.
 
@@ -141,15 +135,19 @@ Definition phi (s : lstate) : nat :=
 Definition committed_true (a : alog2) : Prop :=
   (1 <= length (afl a) <= length (abl a))%nat /\ afl a = take (length (afl a)) (thdrs (abl a)).
 
-Record linv (p : Z) (c : lcfg) (s : lstate) : Prop := {
+Record linv (parent : Z -> Z) (g : Z) (p : Z) (c : lcfg) (s : lstate) : Prop := {
   li_chain : wf_chain (abl (l_a s));
+  li_parent : parent_ok parent (abl (l_a s));
+  li_head : head (abl (l_a s)) = Some g;
   li_true : committed_true (l_a s);
   li_gen : c_genesis c = thd (abl (l_a s)) 0;
   li_notbanned : ~ In p (l_banned s);
   li_conn_banned : forall q, In q (l_conn s) -> ~ In q (l_banned s);
   li_cache : l_cache s = [] \/
              ((forall l, In (p, l) (l_cache s) <-> l = tcps (l_cache_bl s) (zlen (l_cache_bl s) - 1)) /\
-              1 <= zlen (l_cache_bl s) - 1);
+              1 <= zlen (l_cache_bl s) - 1 /\
+              NoDup (l_cache_bl s) /\ parent_ok parent (l_cache_bl s) /\ head (l_cache_bl s) = Some g /\
+              (c_height_only c = false -> l_cache_stop s = default 0 (last (l_cache_bl s))));
   li_legacy : c_legacy c = false;
   li_cp : c_cp c = None;
   li_phase : match l_ph s with PRetry _ _ => False | _ => True end
